@@ -692,6 +692,10 @@ def _structural(op, args):
     if op == "idx0":
         a = P(args[0])
         at = a.single_atom()
+        if at is not None and isinstance(at, App) and at.op in ("where", "x:torch.where", "x:numpy.where") and len(at.args) == 3 and isinstance(args[1], int) \
+                and all(as_stack0(b_) is not None and args[1] < len(as_stack0(b_)) for b_ in at.args[1:]):
+            # a component of an elementwise selection between two stacks: the selection between their components
+            return app(at.op, at.args[0], as_stack0(at.args[1])[args[1]], as_stack0(at.args[2])[args[1]])
         if at is not None and isinstance(at, App) and at.op == "stack0":
             k = args[1]
             if isinstance(k, int) and 0 <= k < len(at.args):
